@@ -56,6 +56,9 @@ THEOREMS = [P + n for n in [
     "html_table_sorted",
     "html_void_and_raw_flags",
     "html_void_no_end_tag",
+    "html_indent_erasure",
+    "html_text_before_namespaced_ok",
+    "html_raw_before_namespaced_counterexample",
 ]]
 
 WS = " \t\r\n"
@@ -67,6 +70,11 @@ WS = " \t\r\n"
 def parse_xml(data, enc=None):
     """bytes -> list of top-level nodes; adjacent character data merged.  `enc`: the encoding the output was
     requested in (given to the parser as external encoding information, needed when the declaration is omitted)"""
+    if isinstance(data, str):
+        # already decoded with the requested encoding: hand it over as UTF-8 with the encoding given externally
+        # (external encoding information overrides the declaration)
+        data = data.lstrip("\ufeff").encode("utf-8")
+        enc = "UTF-8"
     p = xml.parsers.expat.ParserCreate(enc if enc in ("UTF-8", "UTF-16", "ISO-8859-1", "US-ASCII") else None)
     p.buffer_text = True
     root = []
@@ -166,6 +174,31 @@ def cr_to_lf(nodes):
             out.append(("text", n[1].replace("\r", "").replace("\n", "")))
         else:
             out.append(n)
+    return out
+
+
+MAXCHAR = {"ISO-8859-1": 0xFF, "US-ASCII": 0x7F}
+
+
+def cdata_unrep_class(evs, enc):
+    """which of the two shapes C04 records as defective occur in the CDATA texts of this event script under this
+    encoding: a text (one cdata event) that ENDS in an unrepresentable character, an unrepresentable character
+    directly followed by "]]>".  Empty for Unicode encodings."""
+    mx = MAXCHAR.get(enc)
+    out = set()
+    if mx is None:
+        return out
+    for e in evs:
+        if e[0] != "C" or not e[1]:
+            continue
+        t = e[1]
+        # a line feed is written without re-opening the section, so it does not change "outside"
+        u = t.rstrip("\n")
+        if u and ord(u[-1]) > mx:
+            out.add("end")
+        for i, c in enumerate(t):
+            if ord(c) > mx and t[i + 1:].lstrip("\n")[:3] == "]]>":
+                out.add("before-]]>")
     return out
 
 
@@ -323,10 +356,16 @@ def parse_html(text, tab):
                     break
                 attrs.append((m.group(1), None if m.group(2) is None else html_unescape(m.group(2))))
                 pos = m.end()
+            kids = []
+            m = re.compile(r" ?/>").match(text, pos)
+            if m and ":" in name:
+                # empty-element tag of a namespaced element (inherited FormatterToXML::endElement)
+                stack[-1][1].append(("elem", name, attrs, kids))
+                pos = m.end()
+                continue
             if text[pos] != ">":
                 raise ValueError("malformed start tag <%s at %d: %r" % (name, pos, text[pos:pos + 20]))
             pos += 1
-            kids = []
             stack[-1][1].append(("elem", name, attrs, kids))
             if name.upper() in HTML4_VOID:
                 continue
@@ -383,7 +422,8 @@ def html_norm(nodes, tab, drop_meta, ename=None):
 # option settings
 
 ENCODINGS = ["UTF-8", "UTF-16", "ISO-8859-1", "US-ASCII"]
-PY_ENC = {"UTF-8": "utf-8", "UTF-16": "utf-16", "ISO-8859-1": "latin-1", "US-ASCII": "ascii", "": "utf-8"}
+PY_ENC = {"UTF-8": "utf-8", "UTF-16": "utf-16", "ISO-8859-1": "latin-1", "US-ASCII": "ascii", "": "utf-8",
+          "UTF-16LE": "utf-16-le", "UTF-16BE": "utf-16-be"}
 
 
 def sax_variants(r, thorough):
@@ -397,7 +437,12 @@ def sax_variants(r, thorough):
         v.append((tag, c))
     mk("indent0", indent=True, amount=0)
     mk("indent%d" % r.range(1, 4), indent=True, amount=r.range(1, 4))
-    mk("enc", enc=r.choice(ENCODINGS[1:]))
+    mk("encU16", enc="UTF-16")
+    mk("encU16BE", enc="UTF-16BE")
+    mk("encU16LE", enc="UTF-16LE")
+    mk("encL1", enc="ISO-8859-1")
+    mk("encA", enc="US-ASCII")
+    mk("encN+indent", enc=r.choice(["ISO-8859-1", "US-ASCII"]), indent=True, amount=r.range(0, 2))
     mk("omitdecl", xmldecl=False)
     mk("standalone", standalone=r.choice(["yes", "no"]), xmldecl=r.chance(1, 2))
     mk("doctype", dsys="sys.dtd", dpub=r.choice(["", "-//X//DTD y//EN", "-//W3C//DTD XHTML 1.0 Strict//EN"]))
@@ -456,9 +501,19 @@ def check_xml_group(ctx, state, doc, evs, variants, replies, mreplies, lines, cd
         enc = cfg["enc"] if kind == "sax" else cfg.get("_enc", "UTF-8")
         try:
             data, text = decode_out(rep[3:], enc)
+            if enc == "UTF-16BE" and not text.lstrip("\ufeff").startswith("<") and data.decode("utf-16-le", "replace").startswith("<"):
+                state["fail"](ctx, "xml.encoding-utf16be-written-little-endian[%s]" % tag,
+                              "encoding UTF-16BE is declared but the bytes are little-endian: %r" % data[:24], key_in)
+                text = data.decode("utf-16-le")
+            if enc in ("UTF-16BE", "UTF-16LE"):
+                data = text
         except (UnicodeDecodeError, ValueError) as e:
             state["fail"](ctx, "xml.encoding[%s]" % tag, "output is not valid %s: %s" % (enc, e), key_in)
             continue
+        # encoding x cdata-section-elements with unrepresentable characters
+        cd_evs = evs if kind == "sax" else G.events_of(doc, [x for k, v in cfg.get("out", []) if k == "cdata" for x in v])
+        ucls = cdata_unrep_class(cd_evs, enc)
+        ukey = "xml.cdata-unrepresentable[%s]: %s" % ("+".join(sorted(ucls)), tag) if ucls else None
         # correspondence with the model (exact text)
         mt = model_text(mrep)
         if mt is None:
@@ -471,7 +526,7 @@ def check_xml_group(ctx, state, doc, evs, variants, replies, mreplies, lines, cd
         except xml.parsers.expat.ExpatError as e:
             if raw:
                 continue
-            state["fail"](ctx, "xml.not-wellformed[%s]" % tag, "output does not parse: %s: %r" % (e, text[:200]), key_in)
+            state["fail"](ctx, ukey or "xml.not-wellformed[%s]" % tag, "output does not parse: %s: %r" % (e, text[:200]), key_in)
             continue
         cdset = cdata_elems if kind == "sax" else [x for k, v in cfg.get("out", []) if k == "cdata" for x in v]
         cr_in_cd = bool(cdset) and cr_in_cdata_text(doc, cdset)
@@ -506,10 +561,13 @@ def check_xml_group(ctx, state, doc, evs, variants, replies, mreplies, lines, cd
                 # recorded finding.  Anything else (no such event, or output the model does not explain) is new.
                 explained = (mt == text) and (raw or any(e[0] == "C" for e in evs))
                 cls = "cdata-or-raw" if explained else "plain"
+                if ucls and not explained and embeds(tree, base_cmp) is not None and mt != text:
+                    state["fail"](ctx, ukey, "indenting output differs from the reference tree: " + d, key_in)
+                    continue
                 state["fail"](ctx, "xml.indent-alters-text[%s]: %s" % (cls, tag),
                               "indent changed more than inserting whitespace-only text between tags: " + d, key_in)
         elif tree != base_cmp:
-            state["fail"](ctx, "xml.option-changes-tree[%s]" % tag,
+            state["fail"](ctx, ukey or "xml.option-changes-tree[%s]" % tag,
                           "tree differs from the base setting: %r vs %r" % (tree, base_cmp), key_in)
 
 
@@ -545,6 +603,7 @@ def run(ctx):
     }
     r = Rng(ctx.seed)
     run_sax_xml(ctx, r, runner, state)
+    run_sax_html(ctx, r, runner, state, tab)
     run_xf(ctx, r, runner, state, tab)
     ctx.oblige("correspondence: real serializer output = Lean model rendering on every generated case", "correspondence",
                not disagreements, json.dumps(disagreements[:3], ensure_ascii=True))
@@ -574,13 +633,19 @@ CORPUS_DOCS = [
 ]
 
 
+UNREP_TEXTS = ["\u20acx", "x\u20acy", "x\u20ac", "\u20ac", "\u20ac\u20ac", "x\u20ac\u20acy", "\u00e9x", "x\u00e9", "a\u20ac]]>b", "a]]>\u20acb",
+               "\u20ac]]>", "]]>\u20acx", "x\u20ac\ny", "\n\u20ac\n", "a\u20acb\u00e9c", "\u20ac]x", "]\u20ac]>x", "\u2028x\u0085y"]
+CORPUS_DOCS += [([("elem", "a", [], [("text", t), ("elem", "b", [], [("text", t)])])], cd) for t in UNREP_TEXTS for cd in (["a"], ["a", "b"], [])]
+CORPUS_DOCS += [([("elem", "a", [], [("text", t), ("text", u)])], ["a"]) for t in UNREP_TEXTS[:6] for u in ("y", "\u20ac")]
+
+
 def run_sax_xml(ctx, r, runner, state):
     n = 1500 if not ctx.thorough else 12000
     docs = [(d, c) for d, c in CORPUS_DOCS]
     for _ in range(n):
         doc = G.gen_doc(r, maxdepth=3 if not ctx.thorough else 4)
         cd = [x for x in G.NAMES if r.chance(1, 4)] if r.chance(1, 3) else []
-        if cd:
+        if cd and r.chance(1, 2):
             doc = asciify(doc)
         docs.append((doc, cd))
     if ctx.thorough:
@@ -734,7 +799,7 @@ def run_xf(ctx, r, runner, state, tab):
                 doc = G.gen_doc(r, maxdepth=3, allow_raw=(method != "text"))
         # the same tree under a base setting and under several others
         allow_cdata = cd is not None or r.chance(1, 2)
-        if allow_cdata:
+        if allow_cdata and r.chance(1, 2):
             doc = asciify(doc)
         base_attrs = [] if method == "none" else [("method", method)]
         settings = [("base", base_attrs, dict(G.BASE_API))]
@@ -782,7 +847,15 @@ def run_xf(ctx, r, runner, state, tab):
                     if all(ord(c) <= (0xFF if enc == "ISO-8859-1" else 0x7F if enc == "US-ASCII" else 0x10FFFF) for c in want):
                         ctx.fail("text.encoding[%s]" % tag, "output not valid %s: %s" % (enc, e), inp)
                     continue
-                representable = all(ord(c) <= (0xFF if enc == "ISO-8859-1" else 0x7F if enc == "US-ASCII" else 0x10FFFF) for c in want)
+                mx = MAXCHAR.get(enc, 0x10FFFF)
+                representable = all(ord(c) <= mx for c in want)
+                if not representable:
+                    if text == "".join(c if ord(c) <= mx else "\x1a" for c in want):
+                        ctx.fail("text.unrepresentable-replaced-by-sub[%s]" % enc,
+                                 "method=text, encoding %s: characters the encoding cannot represent are silently written as 0x1A: %r for %r" % (enc, text[:80], want[:80]), inp)
+                    else:
+                        ctx.fail("text.not-string-value[%s]" % tag, "method=text output %r is not the text %r in %s" % (text[:200], want[:200], enc), inp)
+                    continue
                 if representable and text != want:
                     ctx.fail("text.not-string-value[%s]" % tag, "method=text output %r is not the concatenated text %r" % (text[:200], want[:200]), inp)
                 mt = model_text(mrep)
@@ -803,33 +876,63 @@ def text_of(nodes):
             yield n[1]
 
 
+HTML_PLAIN = list("abcxyz 012") + ["<", ">", "&", '"', "\n", " "]
 HTML_TEXT = list("abcxyz 012") + ["<", ">", "&", '"', "\n", " ", "\u00e9", "\u00a0", "\u20ac"]
 
 
-def gen_html_doc(r):
+NS_NAMES = ["m:x", "m:row", "svg:g", "svg:c"]
+
+
+def gen_html_doc(r, ns=None):
+    """an HTML result tree; with `ns`, elements of two namespaced vocabularies (prefixes m, svg, declared on the root)
+    appear inside mixed content, so that FormatterToHTML takes its inherited FormatterToXML element path"""
+    if ns is None:
+        ns = r.chance(1, 2)
+    plain = r.chance(1, 2)     # content the Lean HTML model renders (printable ASCII, simple attribute values)
+
     def text():
-        return "".join(r.choice(HTML_TEXT) for _ in range(r.range(1, 5)))
+        t = "".join(r.choice(HTML_PLAIN if plain else HTML_TEXT) for _ in range(r.range(1, 5)))
+        if r.chance(1, 8):
+            t = r.choice([" ", "\n", "  "])
+        return t
+
+    def kids_of(depth):
+        kids = []
+        if depth > 0:
+            for _ in range(r.weighted([(0, 2), (1, 4), (2, 4), (3, 3), (4, 1)])):
+                k = r.weighted([("elem", 8), ("text", 8), ("comment", 1), ("raw", 1), ("pi", 1)])
+                if k == "elem":
+                    kids.append(elem(depth - 1))
+                elif k == "text":
+                    kids.append(("text", text()))
+                elif k == "raw":
+                    kids.append(("raw", r.choice(["r", "r s", "rr"])))
+                elif k == "pi":
+                    kids.append(("pi", "t", r.choice(["", "d"])))
+                else:
+                    kids.append(("comment", "c"))
+        return kids
 
     def elem(depth, name=None):
+        if name is None and ns and r.chance(2, 5):
+            name = r.choice(NS_NAMES)
+            attrs = [("k", r.choice(["v", "a b", "k"]))] if r.chance(1, 3) else []
+            return ("elem", name, attrs, kids_of(depth))
         name = name or r.choice(G.HTML_NAMES)
         attrs = []
         if name == "a" and r.chance(2, 3):
-            attrs.append(("href", r.choice(["x.html", "a b", "q?x=1&y=2", "café", "%20z"])))
+            attrs.append(("href", r.choice(["x.html", "a b", "a/b.c"] if plain else ["x.html", "a b", "q?x=1&y=2", "caf\u00e9", "%20z"])))
         if name == "img":
             attrs.append(("src", r.choice(["i.png", "a b.png"])))
         if name in ("input", "option", "select", "textarea") and r.chance(1, 2):
             attrs.append(r.choice([("disabled", "disabled"), ("disabled", ""), ("readonly", "readonly"), ("selected", "selected"),
                                    ("checked", "checked")]))
         if r.chance(1, 4):
-            attrs.append(("title", text()))
+            attrs.append(("title", "".join(r.choice("abc xyz.") for _ in range(r.range(1, 4))) if plain
+                          else text() + ("\U0001d4b3" if r.chance(1, 6) else "")))
         if name in ("br", "hr", "img", "input"):
             return ("elem", name, attrs, [])
-        kids = []
-        if depth > 0:
-            for _ in range(r.weighted([(0, 2), (1, 4), (2, 4), (3, 3), (4, 1)])):
-                k = r.weighted([("elem", 8), ("text", 8), ("comment", 1)])
-                kids.append(elem(depth - 1) if k == "elem" else ("text", text()) if k == "text" else ("comment", "c"))
-        return ("elem", name, attrs, kids)
+        return ("elem", name, attrs, kids_of(depth))
     head_kids = []
     if r.chance(1, 2):
         head_kids.append(("elem", "title", [], [("text", text())]))
@@ -837,15 +940,43 @@ def gen_html_doc(r):
         head_kids.append(("elem", r.choice(["script", "style"]), [], [("text", r.choice(["a<b&&c", "p > q {}", "if (a<b) x();"]))]))
     body = ("elem", "body", [], [elem(r.range(0, 3)) for _ in range(r.range(1, 3))])
     top = [("elem", "head", [], head_kids)] if r.chance(2, 3) else []
-    return [("elem", r.choice(["html", "html", "HTML"]), [], top + [body])]
+    root_attrs = [("xmlns:m", "urn:m"), ("xmlns:svg", "urn:svg")] if ns else []
+    return [("elem", r.choice(["html", "html", "HTML"]), root_attrs, top + [body])]
+
+
+def raw_before_namespaced(nodes):
+    """a disable-output-escaping text node directly followed by a namespaced element (recorded finding)"""
+    for i, n in enumerate(nodes):
+        if n[0] == "elem":
+            if raw_before_namespaced(n[3]):
+                return True
+        if n[0] == "raw" and i + 1 < len(nodes) and nodes[i + 1][0] == "elem" and ":" in nodes[i + 1][1]:
+            return True
+    return False
+
+
+def supplementary_in_attr(nodes):
+    for n in nodes:
+        if n[0] == "elem":
+            if any(ord(c) > 0xFFFF for _, v in n[2] for c in v) or supplementary_in_attr(n[3]):
+                return True
+    return False
 
 
 def check_html_group(ctx, state, doc, settings, eff, reps, mreps, ls, tab):
+    items = []
+    for (tag, oa, api), (m, enc, ind), rep, mrep, line in zip(settings, eff, reps, mreps, ls):
+        inp = {"kind": "xf", "variant": tag, "out": oa, "api": api, "doc": doc, "line": line[:3000]}
+        items.append((tag, enc, ind, rep, mrep, line, inp, not any(k == "method" for k, _ in oa)))
+    check_html_outputs(ctx, state, doc, items, tab)
+
+
+def check_html_outputs(ctx, state, doc, items, tab):
+    """items: (tag, encoding, indenting?, implementation reply, model reply, request line, replay input, implicit-html?)"""
     if tab is None:
         return
     exp = html_norm(expected_tree_html(doc), tab, False)
-    for (tag, oa, api), (m, enc, ind), rep, mrep, line in zip(settings, eff, reps, mreps, ls):
-        inp = {"kind": "xf", "variant": tag, "out": oa, "api": api, "doc": doc, "line": line[:3000]}
+    for tag, enc, ind, rep, mrep, line, inp, implicit in items:
         if not rep.startswith("ok "):
             ctx.fail("html.error[%s]" % tag, "transform failed: " + rep, inp)
             continue
@@ -853,7 +984,6 @@ def check_html_group(ctx, state, doc, settings, eff, reps, mreps, ls, tab):
             _, text = decode_out(rep[3:], enc)
             if text.startswith("\ufeff"):
                 # a second byte-order mark: the first one is consumed by the decoder
-                implicit = not any(k == "method" for k, _ in oa)
                 ctx.fail("html.second-bom[%s]" % ("implicit-html-utf16" if implicit and enc == "UTF-16" else "other"),
                          "the output starts with two byte-order marks (the second one is a U+FEFF character before the document)", inp)
                 text = text[1:]
@@ -862,13 +992,95 @@ def check_html_group(ctx, state, doc, settings, eff, reps, mreps, ls, tab):
         except (UnicodeDecodeError, ValueError) as e:
             ctx.fail("html.unreadable[%s]" % tag, "output cannot be read by HTML rules: %s: %r" % (e, rep[:80]), inp)
             continue
+        mt = model_text(mrep)
         d = embeds(tree, exp, ci=True)
         if d is not None:
-            ctx.fail("html.tree[%s]" % ("indent" if ind else "noindent"),
-                     "HTML output does not read back to the result tree (modulo inserted whitespace/META): %s; output %r" % (d, text[:300]), inp)
-        mt = model_text(mrep)
+            # recognise the two recorded findings (alone or together in one tree); anything else is new
+            can_raw = ind and raw_before_namespaced(doc) and (mt is None or mt == text)
+            can_sup = supplementary_in_attr(doc)
+            what = "HTML output does not read back to the result tree (modulo inserted whitespace/META): %s; output %r" % (d, text[:300])
+            keys = None
+            if can_raw and embeds(strip_ws_after_raw(tree), strip_ws_after_raw(exp), ci=True) is None:
+                keys = ["html.indent-after-raw-before-namespaced-element"]
+            elif can_sup and embeds(tree, truncate_supplementary(exp), ci=True) is None:
+                keys = ["html.attr-supplementary-character[%s]" % ("indent" if ind else "noindent")]
+            elif can_raw and can_sup and embeds(strip_ws_after_raw(tree), strip_ws_after_raw(truncate_supplementary(exp)), ci=True) is None:
+                keys = ["html.indent-after-raw-before-namespaced-element",
+                        "html.attr-supplementary-character[%s]" % ("indent" if ind else "noindent")]
+            for key in keys or ["html.tree[%s]" % ("indent" if ind else "noindent")]:
+                ctx.fail(key, what, inp)
         if mt is not None and mt != text:
             state["disagree"](tag, line, text, mt, "html output differs")
+
+
+def truncate_supplementary(nodes):
+    """used only to recognise the recorded finding: attribute values with characters outside the BMP cut to 16 bits"""
+    out = []
+    for n in nodes:
+        if n[0] == "elem":
+            out.append(("elem", n[1], [(a, v if v is None else "".join(chr(ord(c) & 0xFFFF) for c in v)) for a, v in n[2]],
+                        truncate_supplementary(n[3])))
+        else:
+            out.append(n)
+    return out
+
+
+def strip_ws_after_raw(nodes):
+    """used only to recognise the recorded finding: trailing white space of a text node that is directly followed
+    by a namespaced element is dropped"""
+    out = []
+    for i, n in enumerate(nodes):
+        if n[0] == "elem":
+            out.append(("elem", n[1], n[2], strip_ws_after_raw(n[3])))
+        elif n[0] == "text" and i + 1 < len(nodes) and nodes[i + 1][0] == "elem" and ":" in nodes[i + 1][1]:
+            out.append(("text", n[1].rstrip(WS)))
+        else:
+            out.append(n)
+    return out
+
+
+def run_sax_html(ctx, r, runner, state, tab):
+    """FormatterToHTML at SAX level (prefixes m and svg bound by the harness' resolver): every tree with indentation
+    off and on (several amounts), doctype, META on/off"""
+    n = 500 if not ctx.thorough else 6000
+    lines, meta = [], []
+    corpus = [
+        [("elem", "html", [], [("elem", "body", [], [("elem", "p", [], [("text", "t"), ("elem", "m:x", [], []), ("text", "u"),
+                                                                       ("elem", "m:y", [], [("elem", "m:z", [], [])])])])])],
+        [("elem", "html", [], [("elem", "body", [], [("elem", "p", [], [("raw", "t"), ("elem", "m:x", [], [])])])])],
+        [("elem", "html", [], [("elem", "body", [], [("elem", "m:x", [("k", "k")], [("elem", "p", [], [("text", "t")]),
+                                                                                ("elem", "svg:y", [], [("text", "q")])])])])],
+    ]
+    for t in range(n + len(corpus)):
+        doc = corpus[t] if t < len(corpus) else gen_html_doc(r)
+        evs = G.events_of(doc)
+        vs = [("noindent", dict(G.BASE_CFG, method="html", indent=False, enc=r.choice(["UTF-8", "UTF-8", "ISO-8859-1"]))),
+              ("indent0", dict(G.BASE_CFG, method="html", indent=True, amount=0)),
+              ("indent%d" % r.range(1, 4), dict(G.BASE_CFG, method="html", indent=True, amount=r.range(1, 4), omitmeta=r.chance(1, 3),
+                                                dsys=r.choice(["", "s.dtd"]), dpub=r.choice(["", "-//W3C//DTD HTML 4.01//EN", "-//W3C//DTD XHTML 1.0 Strict//EN"]),
+                                                escurls=r.chance(1, 2)))]
+        ls = [G.sax_line(cfg, evs) for _, cfg in vs]
+        meta.append((doc, vs, len(lines), ls))
+        lines += ls
+    il, ml, irc, mrc, ierr, merr = runner.run(lines, "saxhtml")
+    if irc != 0 or len(il) < len(lines):
+        bad = lines[len(il)] if len(il) < len(lines) else ""
+        ctx.fail("saxhtml.crash", "harness stopped (rc=%s) at request %d: %s" % (irc, len(il), ierr[-600:]), {"line": bad[:3000]})
+        return
+    if mrc != 0 or len(ml) < len(lines):
+        ctx.oblige("model driver ran to completion (sax html)", "correspondence", False, merr[-600:])
+        return
+    modelled = 0
+    for doc, vs, off, ls in meta:
+        items = []
+        for k, ((tag, cfg), line) in enumerate(zip(vs, ls)):
+            inp = {"kind": "sax", "variant": tag, "cfg": cfg, "doc": doc, "line": line[:3000]}
+            items.append((tag, cfg["enc"], cfg["indent"], il[off + k], ml[off + k], line, inp, False))
+            modelled += ml[off + k].startswith("ok ")
+            nt = nontrivial(doc)
+            ctx.case(nontrivial_key=(line if (nt and cfg["indent"]) else None), cls="saxhtml:" + ("ns" if doc[0][2] else "plain"))
+        check_html_outputs(ctx, state, doc, items, tab)
+    ctx.extra["saxhtml_model_covered"] = "%d of %d requests rendered by the Lean HTML model (the rest: predicates only)" % (modelled, len(lines))
 
 
 def expected_tree_html(nodes):
